@@ -33,6 +33,6 @@ Print Assumptions c19_no_leak_no_double_free.
 
 (* a cancel-heavy run: cancel while the runner is between its load and its poll *)
 Example c19_nonvacuous :
-  let s := ts_run init_forget [TRunStart; TTokenCancel; TRunBegin; TCancelClose] in
+  let s := ts_run init_forget [TRunStart; TTokenCancel; TRunBegin; TPollPending; TRunBegin; TCancelClose] in
   alloc s = false /\ futdrops s = 1 /\ deallocs s = 1 /\ badfree s = 0.
-Proof. vm_compute. auto. Qed.
+Proof. vm_compute. repeat split; reflexivity. Qed.
